@@ -281,7 +281,7 @@ func genTmplT(t *rapid.T, names []string, forbidden map[string]bool) []gen.TmplP
 				parts = append(parts, gen.TmplPart{Kind: "if_contains", A: a, Text: rapid.SampledFrom([]string{"a", "e", "/", "0", ""}).Draw(t, "tmpl-needle")})
 			}
 		case 13:
-			parts = append(parts, gen.TmplPart{Kind: rapid.SampledFrom([]string{"b64enc", "regex_wrap", "ts_millis"}).Draw(t, "tmpl-misc"), A: a})
+			parts = append(parts, gen.TmplPart{Kind: rapid.SampledFrom([]string{"b64enc", "regex_wrap", "ts_millis", "regex_wrap_literal", "regex_count"}).Draw(t, "tmpl-misc"), A: a})
 		case 0:
 			parts = append(parts, gen.TmplPart{Kind: "lit", Text: rapid.SampledFrom([]string{"x", "-", " => ", "[", "lit", "\"q\"", "ünï"}).Draw(t, "tmpl-lit")})
 		case 1:
